@@ -324,6 +324,7 @@ class ProgreessMonitor:
 
 	def start(self, tokens: list[Token]) -> None:
 		"""ログ出力(開始) Args: tokens: トークンリスト"""
+		self.peek = 0
 		if self.verbose:
 			for i, token in enumerate(tokens):
 				print(i, token)
